@@ -305,3 +305,16 @@ CHECKS["C03"]["rule"] += ("; CLI form on the shipped binary (c03cli): a director
                          "directory and on the explicit path list must accept every written file on 1, 2 and the default number of threads - also when "
                          "0, 1 or several unformatted / undecodable strangers are part of the batch (each file's verdict is its stand-alone verdict) - and a "
                          "second in-place run must leave every mtime and byte untouched")
+
+
+def _c01cli(tier, seed):
+    import c01cli
+    return c01cli.explore(tier, seed)
+
+
+CHECKS["C01"]["cli"] = True
+CHECKS["C01"]["python"] = [_c01cli]
+CHECKS["C01"]["rule"] += ("; CLI form (c01cli): the shipped binary stdin -> stdout on well-formed seed programs and on texts that stress the output "
+                         "path (a verbatim last line of several KiB without terminator, 80 KB without a line break, long statements, empty and "
+                         "one-character inputs) behind no BOM, a UTF-8, a UTF-16LE and a UTF-16BE byte order mark: the decoded output has the same "
+                         "non-blank characters, ignoring ASCII case")
